@@ -482,6 +482,10 @@ def length(a):
         return length(a[2])
     if tag in ('not', 'binv'):
         return length(a[1])
+    if tag in ('band', 'bor') and a[1]:
+        # an element-wise and / or is as long as its operands (all the same length): the one that sorts first, negations aside
+        ops = sort_terms({x[1] if x[0] == 'binv' else x for x in a[1]})
+        return length(ops[0])
     if tag == 'cmp' and a[1] == 'Eq':
         return length(a[3] if scalar_value(a[2]) else a[2])
     if tag == 'slice' and a[4] == NONE:
@@ -736,6 +740,11 @@ def bor(ts):
 def binv(t):
     if t[0] == 'binv':
         return t[1]
+    if t[0] in ('bor', 'band') and t[1] and all(x[0] == 'binv' for x in t[1]):
+        return (band if t[0] == 'bor' else bor)([x[1] for x in t[1]])          # De Morgan on element-wise conditions
+    if t[0] == 'arr' and t[2] and all(isconst(v) and isinstance(v[1], (bool, int)) and v[1] in (0, 1, True, False) for _k, v, _g in t[2]) and is_boolarr(t[1]):
+        # inverting a boolean array after constant stores == the same stores, inverted, on the inverted array
+        return ('arr', binv(t[1]), tuple((k, ('const', not bool(v[1])), g) for k, v, g in t[2]))
     if t[0] == 'nd' and t[1][0] in ('list', 'tuple') and t[1][1] and all(isconst(e) and isinstance(e[1], bool) for e in t[1][1]):
         return ('nd', (t[1][0], tuple(('const', not e[1]) for e in t[1][1])))        # ~ of an explicit boolean array
     if isconst(t) and isinstance(t[1], bool):
@@ -788,6 +797,11 @@ def arr_store(cur, k, v, g):
     # index given as the positions of a boolean mask == the mask itself
     if k[0] == 'call' and k[1] == 'flatnonzero' and len(k[2]) == 1:
         k = k[2][0]
+    # x[:1] = v  /  x[-1:] = v  store into the first / last element when there is one: x[0] = v / x[-1] = v under len(x) > 0
+    if k in (('sl', NONE, ('const', 1), NONE), ('sl', ('const', 0), ('const', 1), NONE), ('sl', ('const', -1), NONE, NONE)) and (isconst(v) or is_scalar(v)):
+        base_ = cur[1] if cur[0] == 'arr' else cur
+        k = ('const', 0) if k[2] == ('const', 1) else ('const', -1)
+        g = and_(list(_conj(g)) + [cmp_('Gt', length(base_), ('const', 0))])
     # "if mask.any(): x[mask] = v"  ==  "x[mask] = v"
     cj = _conj(g)
     for c in list(cj):
